@@ -19,7 +19,7 @@ use alpenglow::consensus::{Alpenglow, ConsensusMessage, EpochInfo, ValidatorEpoc
 use alpenglow::crypto::merkle::BlockHash;
 use alpenglow::crypto::{Hash, aggsig, signature};
 use alpenglow::disseminator::Rotor;
-use alpenglow::network::{UdpNetwork, localhost_ip_sockaddr};
+use alpenglow::network::{Network, NetworkMessageConfig, UdpNetwork, localhost_ip_sockaddr};
 use alpenglow::repair::{RepairRequest, RepairRequestType, RepairResponse};
 use alpenglow::shredder::{RegularShredder, Shred, Shredder};
 use alpenglow::types::{Slice, SliceIndex, Slot};
@@ -50,6 +50,103 @@ fn mutate(rng: &mut Rng, mut b: Vec<u8>) -> Vec<u8> {
     b
 }
 
+/// drop counter of the UDP socket bound to `port` (last column of /proc/net/udp); `None` where that is unavailable
+fn udp_drops(port: u16) -> Option<u64> {
+    let text = std::fs::read_to_string("/proc/net/udp").ok()?;
+    for line in text.lines().skip(1) {
+        let w: Vec<&str> = line.split_whitespace().collect();
+        let local_port = w.get(1).and_then(|a| a.rsplit(':').next()).and_then(|p| u16::from_str_radix(p, 16).ok());
+        if local_port == Some(port) {
+            return w.last().and_then(|d| d.parse().ok());
+        }
+    }
+    None
+}
+
+/// Receive path under hostile traffic: a burst of valid datagrams with malformed ones in between (truncated, with
+/// trailing bytes, random bytes, empty) sits in the socket buffer *before* the receiver polls; then the receiver
+/// reads.  "Hostile input is dropped ... and the node keeps [serving]": exactly the valid messages are delivered,
+/// in the order sent.  Nothing is assumed about how the kernel batches; loopback, small datagrams, a burst far
+/// below the socket buffer, generous timeouts; a round in which the kernel counted a drop for the socket is not judged.
+/// `make(seq)` = wire bytes of valid message number `seq`, `ident` = the number of a delivered message.
+fn udp_burst<R>(rt: &tokio::runtime::Runtime, rec: &mut Recorder, rng: &mut Rng, what: &str, rounds: usize, make: &mut dyn FnMut(u32, &mut Rng) -> Vec<u8>, ident: &dyn Fn(&R) -> Option<u32>)
+where
+    R: for<'de> wincode::SchemaRead<'de, NetworkMessageConfig, Dst = R> + Send + Sync,
+    UdpNetwork<R, R>: Network<Recv = R>,
+{
+    let net: UdpNetwork<R, R> = { let _g = rt.enter(); UdpNetwork::new_with_any_port() };
+    let sock = UdpSocket::bind("127.0.0.1:0").expect("bind");
+    let to = localhost_ip_sockaddr(net.port());
+    let mut seq = 0u32;
+    for round in 0..rounds {
+        // true = valid
+        let shape = round % 6;
+        let mut plan: Vec<bool> = Vec::new();
+        match shape {
+            0 => { plan.push(false); plan.extend(std::iter::repeat_n(true, rng.range(2, 40) as usize)); }            // garbage first
+            1 => { for _ in 0..rng.range(2, 45) { plan.push(false); plan.push(true); } }                          // alternating
+            2 => { for _ in 0..rng.range(10, 90) { plan.push(!rng.chance(1, 4)); } }                              // scattered
+            3 => { while plan.len() < 70 { plan.extend(std::iter::repeat_n(true, rng.range(1, 10) as usize)); plan.extend(std::iter::repeat_n(false, rng.range(1, 5) as usize)); } plan.push(true); } // runs
+            4 => { plan.extend(std::iter::repeat_n(true, rng.range(1, 33) as usize)); plan.push(false); plan.extend(std::iter::repeat_n(true, rng.range(1, 33) as usize)); } // one in the middle
+            _ => { plan.extend(std::iter::repeat_n(true, rng.range(1, 60) as usize)); plan.push(false); }          // garbage last (control)
+        }
+        let mut want: Vec<u32> = Vec::new();
+        let mut wire: Vec<Vec<u8>> = Vec::new();
+        let mut kinds = [0usize; 4];
+        for &valid in &plan {
+            seq += 1;
+            let good = make(seq, rng);
+            debug_assert!(alpenglow::network::deserialize::<R>(&good).is_ok());
+            if valid {
+                want.push(seq);
+                wire.push(good);
+            } else {
+                let k = rng.below(4) as usize;
+                let mut bad = match k {
+                    0 => { let mut b = good.clone(); let cut = rng.range(1, 4) as usize; b.truncate(b.len().saturating_sub(cut)); b }
+                    1 => { let mut b = good.clone(); let n_ = rng.range(1, 9) as usize; b.extend(rng.bytes(n_)); b }
+                    2 => { let n_ = rng.range(1, 40) as usize; rng.bytes(n_) }
+                    _ => Vec::new(),
+                };
+                // only datagrams the decoder certainly refuses count as malformed
+                if alpenglow::network::deserialize::<R>(&bad).is_ok() { bad = good[..good.len() - 1].to_vec(); }
+                kinds[k] += 1;
+                wire.push(bad);
+            }
+        }
+        let d0 = udp_drops(net.port());
+        for b in &wire { let _ = sock.send_to(b, to); }
+        // everything is queued at the receiving socket before it is polled for the first time
+        std::thread::sleep(Duration::from_millis(30));
+        let got: Vec<Option<u32>> = rt.block_on(async {
+            let mut got = Vec::new();
+            while got.len() < want.len() + 4 {
+                // once everything expected has arrived only look briefly for surplus deliveries
+                let wait = if got.len() < want.len() { Duration::from_secs(4) } else { Duration::from_millis(100) };
+                match tokio::time::timeout(wait, net.receive()).await {
+                    Ok(Ok(m)) => got.push(ident(&m)),
+                    _ => break,
+                }
+            }
+            got
+        });
+        let d1 = udp_drops(net.port());
+        let kernel_dropped = matches!((d0, d1), (Some(a), Some(b)) if b > a);
+        let ok = got.len() == want.len() && got.iter().zip(want.iter()).all(|(g, w)| *g == Some(*w));
+        rec.step(&format!("udp-burst {what} round {round} shape {shape}: {} datagrams, {} valid, malformed kinds {:?}", plan.len(), want.len(), kinds), if ok { "all valid delivered in order" } else { "differs" });
+        if kernel_dropped {
+            rec.count("udp-burst:kernel-drop-not-judged");
+            continue;
+        }
+        rec.count(&format!("udp-burst:{}", if ok { "delivered" } else { "LOST" }));
+        rec.oracle(ok, "udp-valid-datagram-dropped", || {
+            let first = (0..want.len().max(got.len())).find(|i| got.get(*i).copied().flatten() != want.get(*i).copied()).unwrap_or(0);
+            let layout: String = plan.iter().map(|v| if *v { 'v' } else { 'X' }).collect();
+            format!("{what}: burst of {} datagrams queued before the first receive (v = valid, X = malformed: {layout}): {} valid messages sent, {} delivered; first difference at position {first} (sent message #{}, delivered {})", plan.len(), want.len(), got.len(), want.get(first).map(|x| x.to_string()).unwrap_or("-".into()), match got.get(first) { None => "nothing".to_string(), Some(None) => "an unknown message".to_string(), Some(Some(x)) => format!("message #{x}") })
+        });
+    }
+}
+
 fn main() {
     let args = Args::parse();
     let mut rng = Rng::new(args.seed);
@@ -65,6 +162,21 @@ fn main() {
     }));
     let rt = tokio::runtime::Builder::new_multi_thread().worker_threads(8).enable_all().build().expect("rt");
     let mut rec = Recorder::new();
+
+    // ---- receive path alone: malformed datagrams in a burst must cost only themselves
+    {
+        rec.begin_case("udp-burst-with-malformed");
+        let rounds = if args.thorough { 36 } else { 6 };
+        let mut brng = rng.fork();
+        udp_burst::<Transaction>(&rt, &mut rec, &mut brng, "transactions", rounds,
+            &mut |seq, rng| { let mut p = vec![0xB5u8]; p.extend(seq.to_le_bytes()); let n_ = rng.below(40) as usize; p.extend(rng.bytes(n_)); wincode::serialize(&Transaction(p)).expect("ser") },
+            &|t: &Transaction| if t.0.len() >= 5 && t.0[0] == 0xB5 { Some(u32::from_le_bytes(t.0[1..5].try_into().expect("4"))) } else { None });
+        let vsk = aggsig::SecretKey::new(&mut brng);
+        udp_burst::<ConsensusMessage>(&rt, &mut rec, &mut brng, "consensus messages", rounds,
+            &mut |seq, _| wincode::serialize(&ConsensusMessage::Vote(Vote::new_skip(Slot::new(seq as u64), &vsk, ValidatorIndex::new(0)))).expect("ser"),
+            &|m: &ConsensusMessage| match m { ConsensusMessage::Vote(v) => Some(v.slot().inner() as u32), _ => None });
+        rec.end_case(fnv(0, "udp-burst"), true);
+    }
     rec.begin_case("hostile-node-run");
 
     // ---- validators: `n` identities, identity BYZ is owned by the harness (no node runs for it)
